@@ -500,6 +500,35 @@ fn observe(
 
     // ---- what the property statement says, computed without the model
     let by_id: HashMap<u64, &PeerSpec> = peers.iter().map(|p| (p.id, p)).collect();
+    // replicas named for a datacenter are IN that datacenter, and they are exactly the replicas of the unrestricted
+    // answer that are in it (same shards, same order) - also when there is none (an empty restriction is empty)
+    if let (Some(rd), Some(ra), Some(d)) = (&r_dc, &r_all, pref.dc()) {
+        for (id, _) in rd {
+            if by_id.get(id).map(|p| p.dc) != Some(Some(d)) {
+                ctx.fail(format!(
+                    "replicas_for_token restricted to datacenter dc{} names node {} which is in {:?} (restricted answer {}, unrestricted {})",
+                    d,
+                    id,
+                    by_id.get(id).and_then(|p| p.dc).map(dc_name),
+                    fmt_reps(rd),
+                    fmt_reps(ra)
+                ));
+            }
+        }
+        let want: Vec<(u64, u32)> = ra.iter().filter(|(id, _)| by_id.get(id).map(|p| p.dc) == Some(Some(d))).cloned().collect();
+        let (mut a, mut b) = (rd.clone(), want.clone());
+        a.sort();
+        b.sort();
+        if a != b {
+            ctx.fail(format!(
+                "replicas_for_token restricted to datacenter dc{} answers {} but the unrestricted answer {} has {} there",
+                d,
+                fmt_reps(rd),
+                fmt_reps(ra),
+                fmt_reps(&want)
+            ));
+        }
+    }
     let live = |p: &PeerSpec| !p.flags.contains('d') && !p.flags.contains('x');
     let permitted = |p: &PeerSpec| pref.dc().is_none() || cfg.failover || p.dc == pref.dc();
     let decl = tablet_expect.as_ref();
